@@ -12,7 +12,7 @@ TEXT = {
                  "spawn_peer_handler, try_next_candidate, handle_kill_req, spawn_tracker) in every reachable state no address a tracker ever listed is "
                  "forgotten (queued, or a connection task was started, or dropped because that address was connected), every dry peer or lost connection "
                  "takes the next candidate while pieces are missing, and a lost connection with no candidate left leaves a tracker task held. "
-                 "Not proved: that the real tasks take these steps (fairness, sockets, timers) - observed by end-to-end runs of the real Session.",
+                 "(T7, closed loop of the real task model and the manager model, whole-client model SysReach) for every geometry (any number of pieces, any positive piece lengths), every content and every chooser meeting C13's guarantee there is an execution - one honest seeder connects, offers everything, unchokes us and answers every request in order with the real bytes - in which the task requests every block of every assigned piece exactly once in order, ends each piece with exactly its bytes, finds the hash equal, stores and reports it, the manager marks it owned and assigns the chooser's next pick, until every piece is owned and (C01.T6) stored under its listed hash with data of that hash (honest_answers_complete_the_piece, round_some/round_none for every chooser answer, seeder_completes by induction on the pieces not owned). Not proved: that the real runtime takes these steps (fairness, sockets, timers) and that several peers' traffic interleaves benignly beyond the bookkeeping theorems - observed by end-to-end runs of the real Session.",
         "note": KERNEL + "the liveness half is a possibility-of-progress theorem about the manager model plus monotonicity, not a fairness proof of the tokio "
                 "runtime; the handler-level block exchange is covered by C10/C01/C06 separately; e2e runs: 14 per quick check, 700 in the thorough tier; the manager model under T2/T3 is tied by manager event histories (25 per e2e run), the connection bookkeeping model under T5 by histories with tracker replies, failures and KillReq on the real Session (5 per e2e run; T5 evaluated on the implementation's snapshots first).",
         "technique": "Lean 4 proof (composition of C01/C03/C12/C13 models: verified-store refinement; progress measure over reachable manager states) + end-to-end differential runs of the real session",
